@@ -154,7 +154,7 @@ func loadProgram(dir string) (*Program, error) {
 				obj, _ := pk.TypesInfo.Defs[fd.Name].(*types.Func)
 				name := fd.Name.Name
 				if isSpec && (strings.HasPrefix(name, "spec_") || strings.HasPrefix(name, "ext_") ||
-					strings.HasPrefix(name, "fspec_") || strings.HasPrefix(name, "lemma_")) {
+					strings.HasPrefix(name, "fspec_") || strings.HasPrefix(name, "lemma_") || strings.HasPrefix(name, "chansend_") || strings.HasPrefix(name, "chanrecv_")) {
 					specs = append(specs, pend{pk, fd})
 					continue
 				}
@@ -186,6 +186,8 @@ func loadProgram(dir string) (*Program, error) {
 			p.ext[strings.Replace(strings.TrimPrefix(name, "ext_"), "_", ".", -1)] = si
 		case strings.HasPrefix(name, "fspec_"):
 			p.fspec[recv+"."+strings.TrimPrefix(name, "fspec_")] = si
+		case strings.HasPrefix(name, "chansend_") || strings.HasPrefix(name, "chanrecv_"):
+			p.fspec[recv+"."+name] = si
 		case strings.HasPrefix(name, "lemma_"):
 			p.lemmas[s.pk.Name+"."+name] = si
 		default:
@@ -213,7 +215,7 @@ func loadProgram(dir string) (*Program, error) {
 }
 
 var clauseKinds = map[string]bool{"requires": true, "ensures": true, "invariant": true, "decreases": true,
-	"modifies": true, "assumes": true, "flag": true, "asserts": true, "touches": true}
+	"modifies": true, "assumes": true, "flag": true, "asserts": true, "touches": true, "touchesmap": true, "quietunless": true}
 
 func (p *Program) parseSpec(pk *packages.Package, fd *ast.FuncDecl) (*SpecInfo, error) {
 	obj, _ := pk.TypesInfo.Defs[fd.Name].(*types.Func)
